@@ -222,7 +222,15 @@ class Exec:
             # every other loop is unnumbered and must iterate over a concrete (unrollable) collection
             self.loop_id = {}
             for key, (sub, nth) in lm.items():
-                hits = [n for n in self.loops if isinstance(n, ast.For) and sub in ast.unparse(n.iter)]
+                if sub.startswith('@inner:'):
+                    # the loops nested inside the loop bound to another key (whatever they iterate over)
+                    outer = [n for n in self.loops if self.loop_id.get(id(n)) == int(sub[7:])]
+                    if not outer:
+                        raise ContractError(f'loop_match {sub}: outer loop not bound (list it first)')
+                    inner = [x for x in ast.walk(outer[0]) if x is not outer[0] and isinstance(x, (ast.For, ast.While))]
+                    hits = [n for n in self.loops if any(n is x for x in inner)]
+                else:
+                    hits = [n for n in self.loops if isinstance(n, ast.For) and sub in ast.unparse(n.iter)]
                 if nth is None:
                     # every loop over this iterable carries the same invariant (e.g. a loop duplicated into both arms of an if)
                     if not hits:
